@@ -175,6 +175,16 @@ func genIPs(sub, thorough bool) []bcase {
 	s := newSet()
 	s.addNil()
 
+	// Long wrong lengths (a bit length that wraps in 8 bits: 32, 36, 48...;
+	// a 4in6 or IPv4 layout at the front of a longer slice).
+	for _, l := range []int{18, 20, 31, 32, 33, 36, 40, 48, 64, 68, 80, 100, 112, 128, 144, 255, 256, 257, 260, 272, 512} {
+		s.add(rep(0, l))
+		s.add(rep(0xff, l))
+		s.add(cat(loop4, rep(0, l-4)))
+		s.add(cat(rep(0, 10), []byte{0xff, 0xff}, loop4, rep(1, l-16)))
+		s.add(cat([]byte{0x20, 0x01, 0x0d, 0xb8}, rep(0, l-4)))
+	}
+
 	// Lengths that are neither 4 nor 16: none of them is an address.
 	for l := 0; l <= 17; l++ {
 		if l == 4 || l == 16 {
